@@ -378,8 +378,19 @@ func runPortfolio(smt string, timeoutS int, seed int, which []string, needAll bo
 	}
 	res := SolverResult{Status: "unknown", All: map[string]string{}}
 	var errOut string
+	// thorough tier (needAll): the other solvers get a grace period after the first definite answer, so that their
+	// verdicts are recorded (a disagreement between solvers would show), but a solver that would only time out
+	// does not hold every obligation up for the full limit
+	var grace <-chan time.Time
 	for i := 0; i < n; i++ {
-		o := <-ch
+		var o one
+		select {
+		case o = <-ch:
+		case <-grace:
+			cancel()
+			i = n
+			continue
+		}
 		res.All[o.name] = o.status
 		if o.status == "error" {
 			errOut += o.name + ": " + o.out + "\n"
@@ -389,6 +400,9 @@ func runPortfolio(smt string, timeoutS int, seed int, which []string, needAll bo
 			if !needAll {
 				cancel()
 				break
+			}
+			if grace == nil {
+				grace = time.After(4 * time.Second)
 			}
 		}
 	}
